@@ -48,6 +48,9 @@ def variants(case):
 
 def run_case(case):
     a, b = case["prog"], case["prog2"]
+    if known.active("three-same-signal-sources") and any(lang.same_type_fanin(p_) for p_ in (b,)):
+        # open finding F-three-same: such a program is wired wrongly, and differently in every layout
+        return {"discard": "excluded:F-three-same", "counters": {"excluded_by:F-three-same": 1}}
     init = {n: (d.e.val.v if isinstance(d.e, lang.SigLit) else d.e.v) for n, d in lang.input_decls(a).items()}
     skipA, skipB, excluded = set(), set(), {}
     if known.active("loop-local-output-not-exposed"):
